@@ -24,6 +24,7 @@ EXPLANATION += ' Added after the seeded-change rounds: ' + "D3 also: the owner's
 EXPLANATION += ' Added in the third session (round-3 seeds and the findings they led to): ' + 'D5: a cancelled resume task still continues the suspended code (cancel() does what execute() does).'
 EXPLANATION += ' Added later in the fourth round: ' + 'D3 also: the recall flag is the last thing recall_owner writes into the suspend point.  D2 also: r1::resume advertises the resume task with a work type whose advertise_new_work instantiation can switch mandatory concurrency on, and the predicate under which out_of_work switches it off looks at the resume stream.'
 EXPLANATION += ' Added in the fifth seeding round: ' + 'D2 also: the poll of the arena resume stream in receive_or_steal_task is reachable whatever the isolation tag of the waiting thread is (no branch that tests the tag, directly or through a local, dominates it) - resume tasks are exempt from isolation, a thread in an isolated wait must still continue suspended tasks.'
+EXPLANATION += ' D2 also: every isolation-filtered search of a task stream (a task_stream function comparing task_accessor::isolation(*t) with its isolation parameter) also accepts a task because it is a resume task - r1::resume puts resume tasks into the critical stream when the suspended dispatcher was executing a critical task.'
 ASSUMPTIONS = ['__TBB_RESUMABLE_TASKS configuration (Linux)', 'co_context::resume switches stacks and returns when resumed']
 ND = ['the stack switch itself (co_context)', 'continuation on exactly one thread as a runtime fact']
 
@@ -126,6 +127,7 @@ def d2_enqueue(facts, rep):
                'the arena can be destroyed between the push and the wake-up, or the wake-up precedes the push')
     d2_resume_is_starvation_resistant(facts, rep)
     d2_resume_stream_is_polled_regardless_of_isolation(facts, rep)
+    d2_isolation_filters_exempt_resume_tasks(facts, rep)
     rep.floor('D2', 3, 'resume enqueue')
 
 
@@ -344,3 +346,56 @@ def d2_resume_stream_is_polled_regardless_of_isolation(facts, rep, clause='D2'):
                    key_extra='resume-poll-iso|' + fn.q[-40:])
     if n < 1:
         raise AnalysisBroken('resume stream polls judged: 0')
+
+
+def resume_exempt_edges(fn):
+    """edges on which the task under test is known to be a resume task: is_resume_task(...) true, directly or through a local"""
+    defs = Defs(fn)
+
+    def atom(a, truth):
+        if not truth:
+            return False
+        src = resolve_cond_source(fn, defs, a)
+        return any(fn.nodes[x].get('k') == 'call' and (fn.callee(x) or {}).get('n') == 'is_resume_task' for x in fn.subtree(src))
+    return edges_where(fn, atom)
+
+
+def d2_isolation_filters_exempt_resume_tasks(facts, rep, clause='D2'):
+    """r1::resume puts the resume task into the critical stream when the suspended dispatcher was executing a critical task.
+    A thread in an isolated wait reads that stream through task_stream::pop_specific / look_specific, which hands out only tasks
+    whose isolation tag equals the waiter's - a resume task carries no tag, so such a waiter can never take it, while it does take
+    resume tasks from the resume stream (they are exempt from isolation; the dispatch loop asserts exactly that).  If the isolated
+    wait depends on the continuation the suspended task is never continued.  Rule: in every isolation-filtered search of a stream
+    (a function of task_stream that compares task_accessor::isolation(*t) with its isolation parameter) a task can also be
+    accepted because it is a resume task: the accepting return is not dominated by the tag-equality edge alone, and the
+    alternative passes task_accessor::is_resume_task."""
+    n = 0
+    for fn in sorted(facts.fns.values(), key=lambda f: f.q):
+        if not fn.p.startswith(R1 + 'task_stream::'):
+            continue
+
+        def tag_equal(a, truth):
+            nd = fn.n(fn.strip(a))
+            if nd.get('k') != 'binop' or nd['op'] not in ('==', '!='):
+                return False
+            sides = [fn.n(fn.strip(nd['l'])), fn.n(fn.strip(nd['r']))]
+            has_call = any(s_.get('k') == 'call' and (fn.callee(s_['s']) or {}).get('p', '').endswith('task_accessor::isolation') for s_ in sides)
+            has_par = any(s_.get('k') == 'var' and 'param' in s_ for s_ in sides)
+            return has_call and has_par and ((nd['op'] == '==') == truth)
+        eq = edges_where(fn, tag_equal)
+        if not eq:
+            continue
+        rets = [(pos, nd) for pos, s, nd in fn.stmt_elems(('return',)) if nd.get('sub', -1) >= 0 and not fn.n(fn.strip(nd['sub'])).get('null')]
+        if not rets:
+            raise AnalysisBroken('%s: isolation filter without an accepting return' % fn.q)
+        exempt = resume_exempt_edges(fn)
+        for pos, nd in rets:
+            n += 1
+            only_by_tag = dominated_by_edges(fn, pos, eq)[0]
+            ok = (not only_by_tag) and bool(exempt) and dominated_by_edges(fn, pos, eq | exempt)[0]
+            rep.ob(clause, 'K4', fn, 'an isolation-filtered search of a task stream also accepts resume tasks', ok,
+                   'a task is handed out only if its tag equals the waiter\'s isolation: a resume task (no tag) that r1::resume put into the critical '
+                   'stream is never taken by a thread in an isolated wait - if that wait depends on the continuation, the suspended task is '
+                   'never continued', ln=nd.get('ln'), key_extra='stream-filter-resume|' + fn.q[-60:])
+    if n < 1:
+        raise AnalysisBroken('task_stream: no isolation-filtered search found')
